@@ -51,6 +51,9 @@ func (c *Ctx) nsFixtures() {
 	both("alias-key-agreement", func(p *load.Program, tb *kinds.Table, rel string) *report.RuleResult {
 		return visitors.AliasKeyAgreement(p, rel)
 	})
+	both("item-independence", func(p *load.Program, tb *kinds.Table, rel string) *report.RuleResult {
+		return visitors.ItemIndependence(p, rel)
+	})
 	both("special-names", func(p *load.Program, tb *kinds.Table, rel string) *report.RuleResult {
 		return visitors.SpecialNames(p, rel)
 	})
@@ -75,7 +78,7 @@ func init() {
 		LevelNote: "Oracle: PHP's name-resolution rules as encoded in internal/visitors/nsresolve.go (table of 25 name positions, special names, alias case rules).",
 		Technique: "static analysis: flow fixpoint over grammar actions (where names can land) cross-checked with typed-AST extraction of the resolver's calls; path evaluation of the alias tables over the two-point domain {raw, lower-cased}; SSA who-writes",
 		Engine:    "visitors",
-		Explanation: "name-sinks, ns-declarations, namespace-switch, alias-key-agreement, special-names, who-writes-resolved on pkg/visitor/nsresolver with slot kinds from both grammars.",
+		Explanation: "name-sinks, ns-declarations, namespace-switch, alias-key-agreement, special-names, who-writes-resolved on pkg/visitor/nsresolver with slot kinds from both grammars. item-independence: no loop of the resolver carries a value chosen for one element of a child list (an alias kind, a prefix) over to the following elements; only accumulators (new value computed from the old one) may live across iterations (seed C14-7: the kind of one item of a mixed group use applied to the items after it).",
 		Assumptions: []string{"the traverser presents nodes in pre-order and source order (C12)"},
 		TrustedBase: yyTrusted,
 		Floors: []report.Floor{
@@ -85,6 +88,7 @@ func init() {
 			{Rule: "namespace-switch", What: "paths", Min: 2},
 			{Rule: "alias-key-agreement", What: "alias-types", Min: 3},
 			{Rule: "special-names", What: "groups", Min: 2},
+			{Rule: "item-independence", What: "loops", Min: 12},
 			{Rule: "who-writes-resolved", What: "writers", Min: 2},
 		},
 		Run: func(c *Ctx) {
@@ -114,6 +118,7 @@ func init() {
 			c.Add(visitors.NamespaceSwitch(p, tb, nsRel, nsRecv))
 			c.Add(visitors.AliasKeyAgreement(p, nsRel))
 			c.Add(visitors.SpecialNames(p, nsRel))
+			c.Add(visitors.ItemIndependence(p, nsRel))
 			if w := c.world(p, "who-writes-resolved"); w != nil {
 				c.Add(effects.WhoWritesMapField(w, "who-writes-resolved", nsRel, "ResolvedNames", "pkg/visitor/nsresolver.NamespaceResolver.AddNamespacedName", "pkg/visitor/nsresolver.NamespaceResolver.ResolveName"))
 			}
